@@ -60,8 +60,22 @@ class Task:
     def run(self):
         t0 = time.time()
         try:
-            mod = importlib.import_module(self.module)
-            out = getattr(mod, self.func)(**dict(self.kwargs))
+            kw = dict(self.kwargs)
+            if kw.pop('_isolate', False) and not os.environ.get('HIDV_IN_ISOLATED_TASK'):
+                # a fresh interpreter for this task: non-linear queries are decided in milliseconds or not at all depending on what the z3
+                # library of a long-lived worker process has seen before (DESIGN 16.10)
+                import pickle, subprocess, sys, base64
+                code = ('import sys, pickle, base64, importlib; sys.path[:0] = %r; kw = pickle.loads(base64.b64decode(sys.argv[1])); '
+                        'out = list(getattr(importlib.import_module(%r), %r)(**kw) or []); sys.stdout.buffer.write(base64.b64encode(pickle.dumps(out)))'
+                        % ([p_ for p_ in sys.path if p_], self.module, self.func))
+                pr = subprocess.run([sys.executable, '-c', code, base64.b64encode(pickle.dumps(kw)).decode()], capture_output=True, timeout=3600,
+                                    env={**os.environ, 'HIDV_IN_ISOLATED_TASK': '1'})
+                if pr.returncode != 0:
+                    raise RuntimeError('isolated task failed: ' + pr.stderr.decode('latin1')[-1500:])
+                out = pickle.loads(base64.b64decode(pr.stdout))
+            else:
+                mod = importlib.import_module(self.module)
+                out = getattr(mod, self.func)(**kw)
             out = list(out or [])
             for r in out:
                 if not r.props:
